@@ -197,10 +197,33 @@ def c03_history(k: int) -> bool:
     return guard(body, k=k)
 
 
+def c03_kernel(k: int) -> bool:
+    """
+    post: _
+    """
+    def body():
+        from vp.core import assume
+        from vp.harness import dbkern as K
+        pi, pc, pb = K.sym_pickers()
+        nn, nr = SL()
+        case = K.sub_case(pi, K.fixed_pick(pc, {"n_nodes": nn, "n_subtree_rows": nr}))
+        ts = [n["timestamp"] for n in case["nodes"]]
+        for i in range(len(ts)):
+            for j in range(i + 1, len(ts)):
+                assume(ts[i] != ts[j])  # "newest" is only defined for distinct timestamps
+        return K.sub_run_fake(case) == K.sub_expected(case)
+    return guard(body, k=k)
+
+
 _NS = len(STEPS)
 _Q = [(sh, 2, (a,)) for sh in range(4) for a in (1, 2, 3)] + [(sh, 3, (1, 0)) for sh in range(4)] + [(0, 2, (5,))]
 _T = [(sh, 3, (a,)) for sh in range(4) for a in range(_NS)] + [(sh, 4, (a, b)) for sh in range(4) for a in (1, 2) for b in (0, 4)]
 CONDITIONS = [
+    Condition(c03_kernel, slices=[(a, b) for a in (0, 1, 2) for b in (0, 1, 2, 3, 4) if a + b <= 3] + [(1, 3)],
+              thorough_slices=[(a, b) for a in (0, 1, 2) for b in (0, 1, 2, 3, 4)], timeout=250, thorough_timeout=1800,
+              bounds="slice = (call nodes - 1, call_subtree_task rows); real _get_call_node on the S4 session: 1-3 call nodes with unbounded symbolic task / argument tokens and pairwise "
+                     "distinct symbolic timestamps, 0-4 call_subtree_task rows (node and task solver-chosen among 2 tasks), any registry "
+                     "subset of the 2 tasks; returns the newest matching node whose recorded task set is within the registry, else none"),
     Condition(c03_history, slices=_Q, thorough_slices=_T, timeout=280, thorough_timeout=3000,
               bounds="slice = (workflow shape index into %r, steps between the initial and the final run, fixed first steps as "
                      "indices into %r); remaining steps and the commit count at which an interrupted run dies are solver-chosen" % (
@@ -208,7 +231,25 @@ CONDITIONS = [
 ]
 
 
+def self_test(seed):
+    from vp.harness import dbkern as K
+    return {"S4_vs_sqlite_agreeing_cases": K.differential("sub", seed)}
+
+
+def warmup(cond):
+    if cond == "c03_kernel":
+        from vp.harness import dbkern as K
+        K.warm("sub")
+
+
 def replay(cond, args, extra):
+    if cond == "c03_kernel":
+        from vp.harness import dbkern as K
+        pi, pc, pb = K.replay_pickers(extra["choices"])
+        nn, nr = extra["slice"]
+        case = K.sub_case(pi, K.fixed_pick(pc, {"n_nodes": nn, "n_subtree_rows": nr}))
+        got, want = K.sub_run_real(case), K.sub_expected(case)
+        return got != want, "_get_call_node on the real SQLite backend with rows %r returned %r, expected %r" % (case, got, want), None
     shape_i, n, first = extra["slice"]
     items = list(extra["choices"])
     nsteps = n - len(first)
